@@ -133,6 +133,34 @@ def typed(o: Any, depth: int = 0) -> Any:
     return ["other", type(o).__name__, repr(o)[:80]]
 
 
+def _scribble(o: Any, depth: int = 0, budget: Optional[List[int]] = None) -> None:
+    """Mutate a structured result the way a careless user could (append to lists, add dict keys, reset
+    optional fields): a later call must not be affected, i.e. results may not alias each other or any
+    state kept by a converter."""
+    attrs = Z["attrs"]
+    budget = budget if budget is not None else [200]
+    if depth > 12 or budget[0] <= 0 or o is None:
+        return
+    budget[0] -= 1
+    if isinstance(o, list):
+        for x in list(o):
+            _scribble(x, depth + 1, budget)
+        o.append("sim-scribble")
+    elif isinstance(o, dict):
+        for x in list(o.values()):
+            _scribble(x, depth + 1, budget)
+        o["simScribble"] = True
+    elif attrs.has(type(o)):
+        for a in attrs.fields(type(o)):
+            v = getattr(o, a.name, None)
+            _scribble(v, depth + 1, budget)
+            if v is not None and not isinstance(v, (list, dict)):
+                try:
+                    setattr(o, a.name, None)  # validated on set: only optional fields accept it
+                except Exception:
+                    pass
+
+
 def do_use(conv: Any, k: int) -> Tuple:
     name, tname, js = battery.STRUCT[k]
     lsp = Z["lsp"]
@@ -141,9 +169,14 @@ def do_use(conv: Any, k: int) -> Tuple:
         obj = conv.structure(json.loads(json.dumps(js)), t)
         img = core.digest(typed(obj))
         out = json.dumps(conv.unstructure(obj), sort_keys=False, default=repr)
+        # the same call again after the first result was scribbled over: must be unaffected
+        _scribble(obj)
+        obj2 = conv.structure(json.loads(json.dumps(js)), t)
+        if core.digest(typed(obj2)) != img:
+            return ("unstable", "result of an earlier structure() call is aliased by a later one")
         return ("ok", img, core.digest(out))
-    except Exception:
-        return ("err",)
+    except Exception as e:
+        return ("err", type(e).__name__)
 
 
 def do_build(conv: Any, k: int) -> Tuple:
@@ -155,22 +188,42 @@ def do_build(conv: Any, k: int) -> Tuple:
         # and back again through the declared class
         back = conv.structure(json.loads(out), type(obj))
         return ("ok", core.digest(out), core.digest(typed(back)))
-    except Exception:
-        return ("err",)
+    except Exception as e:
+        return ("err", type(e).__name__)
 
 
-def customise(conv: Any) -> None:
-    """What a user may do to *their* converter: own hooks for Position in both directions."""
+CUSTOM_VARIANTS = ["position", "range", "severity"]
+
+
+def customise(conv: Any, variant: str = "position") -> None:
+    """What a user may do to *their* converter: own hooks for one LSP type."""
     lsp = Z["lsp"]
+    if variant == "position":
+        def s_hook(o: Any, _t: Any) -> Any:
+            return lsp.Position(line=int(o["line"]) + 1000, character=int(o["character"]))
 
-    def s_hook(o: Any, _t: Any) -> Any:
-        return lsp.Position(line=int(o["line"]) + 1000, character=int(o["character"]))
+        def u_hook(p: Any) -> Any:
+            return {"line": p.line, "character": p.character, "simCustom": True}
 
-    def u_hook(p: Any) -> Any:
-        return {"line": p.line, "character": p.character, "simCustom": True}
+        conv.register_structure_hook(lsp.Position, s_hook)
+        conv.register_unstructure_hook(lsp.Position, u_hook)
+    elif variant == "range":
+        def r_hook(o: Any, _t: Any) -> Any:
+            # the user wants normalised ranges: start and end swapped on purpose to be observable
+            return lsp.Range(start=conv.structure(o["end"], lsp.Position), end=conv.structure(o["start"], lsp.Position))
 
-    conv.register_structure_hook(lsp.Position, s_hook)
-    conv.register_unstructure_hook(lsp.Position, u_hook)
+        conv.register_structure_hook(lsp.Range, r_hook)
+    elif variant == "severity":
+        def sev_s(o: Any, _t: Any) -> Any:
+            return lsp.DiagnosticSeverity.Hint
+
+        def sev_u(v: Any) -> Any:
+            return 4000 + int(v.value)
+
+        conv.register_structure_hook(lsp.DiagnosticSeverity, sev_s)
+        conv.register_unstructure_hook(lsp.DiagnosticSeverity, sev_u)
+    else:
+        raise ValueError(variant)
 
 
 def make_user(cfg: Any) -> Any:
@@ -187,36 +240,72 @@ def make_user(cfg: Any) -> Any:
     return Counting(**kw)
 
 
-def cfg_key(cfg: Any) -> str:
-    return "fek" if isinstance(cfg, dict) and cfg.get("fek") else "std"
+def cfg_of(cfg: Any) -> Tuple[bool, bool]:
+    """(detailed_validation, forbid_extra_keys) of a converter configuration (cattrs default dv=True)."""
+    if not isinstance(cfg, dict):
+        cfg = {"dv": cfg, "fek": False}
+    return (True if cfg.get("dv") is None else bool(cfg["dv"]), bool(cfg.get("fek")))
 
 
-def compute_golden() -> Dict[str, Any]:
-    """Sequential, untraced, one thread, one lone converter per entry.
-    'plain': fresh converter.  'post': customised after get_converter.  'pre': user converter
-    customised before get_converter.  '*-fek': the same on a user converter with forbid_extra_keys
-    (that option legitimately changes results, so it has its own reference)."""
+def gkey(custom: Optional[str], dv: bool, fek: bool) -> str:
+    return f"{custom or 'plain'}|dv={int(dv)}|fek={int(fek)}"
+
+
+def all_golden_keys() -> List[str]:
+    customs = [None] + [f"{w}:{v}" for w in ("pre", "post") for v in CUSTOM_VARIANTS]
+    return [gkey(c, dv, fek) for c in customs for dv in (True, False) for fek in (False, True)]
+
+
+def compute_golden_key(key: str) -> Dict[str, Any]:
+    """Reference outcomes of ONE lone converter of the given kind: sequential, untraced, one thread.
+    plain: fresh get_converter() (default configuration) or a user converter with the given options;
+    pre:V  user converter customised with variant V before get_converter; post:V customised after."""
     conv = Z["conv"]
-    g: Dict[str, Any] = {}
+    custom, dvs, feks = key.split("|")
+    dv, fek = dvs == "dv=1", feks == "fek=1"
+    if dv and not fek and custom == "plain":
+        c = conv.get_converter()
+    else:
+        base = make_user({"dv": dv, "fek": fek})
+        if custom.startswith("pre:"):
+            customise(base, custom[4:])
+        c = conv.get_converter(base)
+    if custom.startswith("post:"):
+        customise(c, custom[5:])
+    return {"use": [do_use(c, k) for k in range(len(battery.STRUCT))], "build": [do_build(c, k) for k in range(len(battery.BUILD))]}
 
-    def outcomes(c: Any) -> Dict[str, Any]:
-        return {"use": [do_use(c, k) for k in range(len(battery.STRUCT))], "build": [do_build(c, k) for k in range(len(battery.BUILD))]}
 
-    g["plain"] = outcomes(conv.get_converter())
-    c2 = conv.get_converter()
-    customise(c2)
-    g["post"] = outcomes(c2)
-    c3 = make_user(None)
-    customise(c3)
-    g["pre"] = outcomes(conv.get_converter(c3))
-    g["plain-fek"] = outcomes(conv.get_converter(make_user({"dv": None, "fek": True})))
-    c5 = conv.get_converter(make_user({"dv": None, "fek": True}))
-    customise(c5)
-    g["post-fek"] = outcomes(c5)
-    c6 = make_user({"dv": None, "fek": True})
-    customise(c6)
-    g["pre-fek"] = outcomes(conv.get_converter(c6))
-    return g
+def golden_task(key: str) -> Tuple[str, Dict[str, Any]]:
+    return key, _fork_call(compute_golden_key, (key,), 300.0)
+
+
+def needed_keys(run: Dict[str, Any]) -> List[str]:
+    cfgs = {(True, False)}
+    customs: set = {None}
+    for i, c in enumerate(run.get("shared_dv", [])):
+        cfgs.add(cfg_of(c))
+        v = run["shared_custom"][i] if i < len(run.get("shared_custom", [])) else None
+        if v:
+            customs.add(f"pre:{v if isinstance(v, str) else 'position'}")
+    for ops in run["threads"]:
+        for op in ops:
+            if op[0] == "GET" and op[2] == "user":
+                cfgs.add(cfg_of(op[3]))
+            elif op[0] == "CUSTOM":
+                customs.add(f"post:{op[2] if len(op) > 2 else 'position'}")
+    return sorted(gkey(c, dv, fek) for c in customs for dv, fek in cfgs)
+
+
+def golden_for(keys: List[str]) -> Dict[str, Any]:
+    """Golden outcomes for the given keys, computed on demand (each in its own forked child) and
+    cached in this process; the check driver pre-computes all of them in parallel before the pool
+    is forked, so workers inherit the full cache."""
+    cache = Z.setdefault("golden", None) or {}
+    Z["golden"] = cache
+    for k in keys:
+        if k not in cache:
+            cache[k] = _fork_call(compute_golden_key, (k,), 300.0)
+    return {k: cache[k] for k in keys}
 
 
 # --------------------------------------------------------------------------------------------
@@ -260,7 +349,7 @@ def gen_run(run_seed: int, tier: str) -> Dict[str, Any]:
         return {"dv": dv, "fek": True} if r_ops.random() < 0.2 else dv
 
     shared_dv = [rand_cfg() for _ in range(n_shared)]
-    shared_custom = [r_ops.random() < 0.25 for _ in range(n_shared)]
+    shared_custom = [r_ops.choice(CUSTOM_VARIANTS) if r_ops.random() < 0.25 else None for _ in range(n_shared)]
 
     def use_ops(slot: int, count: int) -> List[List[Any]]:
         ops = []
@@ -323,7 +412,7 @@ def gen_run(run_seed: int, tier: str) -> Dict[str, Any]:
                 elif x < 0.94:
                     s = r_ops.randrange(nslots)
                     if s not in shared_slots:
-                        ops.append(["CUSTOM", s])
+                        ops.append(["CUSTOM", s, r_ops.choice(CUSTOM_VARIANTS)])
                         customised.add(s)
                         ops += use_ops(s, 1)
                         # behaviour of the *others* must not change
@@ -404,19 +493,21 @@ def execute(run: Dict[str, Any], golden: Dict[str, Any]) -> Dict[str, Any]:
         "preused_user_converter": 0,
     }
 
-    # model: identity -> mode ('plain' | 'post' | 'pre' | 'unknown'); slots per thread
-    mode: Dict[int, str] = {}
+    # model: identity -> customisation (None | 'pre:V' | 'post:V') and configuration (dv, fek)
+    mode: Dict[int, Optional[str]] = {}
     shared: List[Any] = []
-    cfgs: Dict[int, str] = {}
+    cfgs: Dict[int, Tuple[bool, bool]] = {}
     for i, dv in enumerate(run["shared_dv"]):
         c = make_user(dv)
         c.sim_tag = f"shared{i}"
-        cfgs[id(c)] = cfg_key(dv)
-        if cfg_key(dv) == "fek":
+        cfgs[id(c)] = cfg_of(dv)
+        if cfg_of(dv)[1]:
             probes["forbid_extra_keys_config"] += 1
-        if run["shared_custom"][i]:
-            customise(c)
-            mode[id(c)] = "pre"
+        v_ = run["shared_custom"][i]
+        if v_:
+            v_ = v_ if isinstance(v_, str) else "position"
+            customise(c, v_)
+            mode[id(c)] = f"pre:{v_}"
             probes["customise_before_get"] += 1
         shared.append(c)
 
@@ -428,8 +519,12 @@ def execute(run: Dict[str, Any], golden: Dict[str, Any]) -> Dict[str, Any]:
         cfgs.pop(id(c), None)
 
     def gold(c: Any) -> Dict[str, Any]:
-        m = mode.get(id(c), "plain")
-        return golden[m + "-fek" if cfgs.get(id(c)) == "fek" else m]
+        dv_, fek_ = cfgs.get(id(c), (True, False))
+        return golden[gkey(mode.get(id(c)), dv_, fek_)]
+
+    def kind_of(c: Any) -> str:
+        dv_, fek_ = cfgs.get(id(c), (True, False))
+        return gkey(mode.get(id(c)), dv_, fek_)
     keep_alive: List[Any] = list(shared)
     registry: List[Any] = []  # converters in order of (completed) creation, for the final sweep
 
@@ -534,22 +629,22 @@ def execute(run: Dict[str, Any], golden: Dict[str, Any]) -> Dict[str, Any]:
                         probes["late_joiner"] += 1
                     if how == "fresh":
                         c = conv_mod.get_converter()
-                        mode.setdefault(id(c), "plain")
-                        cfgs.setdefault(id(c), "std")
+                        mode.setdefault(id(c), None)
+                        cfgs.setdefault(id(c), (True, False))
                     elif how == "user":
                         base = make_user(arg)
                         if len(op) > 4:
                             for k_ in op[4]:
                                 do_use(base, k_)  # outcome not judged: not an lsprotocol converter yet
                             probes["preused_user_converter"] += 1
-                        cfgs[id(base)] = cfg_key(arg)
-                        if cfg_key(arg) == "fek":
+                        cfgs[id(base)] = cfg_of(arg)
+                        if cfg_of(arg)[1]:
                             probes["forbid_extra_keys_config"] += 1
                         c = conv_mod.get_converter(base)
-                        cfgs.setdefault(id(c), cfg_key(arg))
+                        cfgs.setdefault(id(c), cfg_of(arg))
                         if c is not base:
-                            mode.setdefault(id(c), "plain")
-                        mode.setdefault(id(base), "plain")
+                            mode.setdefault(id(c), None)
+                        mode.setdefault(id(base), None)
                     else:
                         base = shared[arg]
                         active_shared[arg] = active_shared.get(arg, 0) + 1
@@ -559,10 +654,10 @@ def execute(run: Dict[str, Any], golden: Dict[str, Any]) -> Dict[str, Any]:
                             c = conv_mod.get_converter(base)
                         finally:
                             active_shared[arg] -= 1
-                        mode.setdefault(id(base), "plain")
+                        mode.setdefault(id(base), None)
                         if c is not base:
                             mode.setdefault(id(c), mode[id(base)])
-                            cfgs.setdefault(id(c), cfgs.get(id(base), "std"))
+                            cfgs.setdefault(id(c), cfgs.get(id(base), (True, False)))
                     keep_alive.append(c)
                     registry.append(c)
                     slots[s] = c
@@ -573,8 +668,8 @@ def execute(run: Dict[str, Any], golden: Dict[str, Any]) -> Dict[str, Any]:
                     c2 = conv_mod.get_converter(c)
                     keep_alive.append(c2)
                     if c2 is not c:
-                        mode.setdefault(id(c2), mode.get(id(c), "plain"))
-                        cfgs.setdefault(id(c2), cfgs.get(id(c), "std"))
+                        mode.setdefault(id(c2), mode.get(id(c)))
+                        cfgs.setdefault(id(c2), cfgs.get(id(c), (True, False)))
                     slots[op[1]] = c2
                     probes["reget"] += 1
                     outcome = ("got",)
@@ -598,7 +693,8 @@ def execute(run: Dict[str, Any], golden: Dict[str, Any]) -> Dict[str, Any]:
                         keep_alive.append(c)
                         gc.collect()
                         probes["dropped_and_collected"] += 1
-                    mode.setdefault(id(c), "plain")
+                    mode.setdefault(id(c), None)
+                    cfgs.setdefault(id(c), (True, False))
                     registry.append(c)
                     slots[s] = c
                     if m >= 100:
@@ -606,13 +702,15 @@ def execute(run: Dict[str, Any], golden: Dict[str, Any]) -> Dict[str, Any]:
                     outcome = ("got",)
                 elif kind == "CUSTOM":
                     c = slots[op[1]]
-                    customise(c)
-                    any_custom[0] = True
-                    mode[id(c)] = "post" if mode.get(id(c), "plain") in ("plain", "post") else mode[id(c)]
+                    variant = op[2] if len(op) > 2 else "position"
+                    if mode.get(id(c)) is None:
+                        customise(c, variant)
+                        any_custom[0] = True
+                        mode[id(c)] = f"post:{variant}"
                     outcome = ("customised",)
                 elif kind == "USE":
                     c = slots[op[1]]
-                    if any_custom[0] and mode.get(id(c), "plain") == "plain":
+                    if any_custom[0] and mode.get(id(c)) is None:
                         probes["custom_then_other_used"] += 1
                     if op[2] >= N_BASE_STRUCT:
                         probes["extra_battery_used"] += 1
@@ -623,8 +721,8 @@ def execute(run: Dict[str, Any], golden: Dict[str, Any]) -> Dict[str, Any]:
                         viol.append(
                             {
                                 "sig": f"use-differs:{exp[0]}->{outcome[0]}",
-                                "msg": f"thread {idx} op {oi} USE({nm}) on a {mode.get(id(c), 'plain')} converter gave "
-                                f"{outcome} but a lone fresh converter gives {tuple(exp)}",
+                                "msg": f"thread {idx} op {oi} USE({nm}) on a [{kind_of(c)}] converter gave "
+                                f"{outcome} but a lone converter of that kind gives {tuple(exp)}",
                             }
                         )
                 elif kind == "BUILD":
@@ -636,7 +734,7 @@ def execute(run: Dict[str, Any], golden: Dict[str, Any]) -> Dict[str, Any]:
                         viol.append(
                             {
                                 "sig": f"build-differs:{exp[0]}->{outcome[0]}",
-                                "msg": f"thread {idx} op {oi} BUILD({nm}) gave {outcome}, lone fresh converter gives {tuple(exp)}",
+                                "msg": f"thread {idx} op {oi} BUILD({nm}) on a [{kind_of(c)}] converter gave {outcome}, a lone converter of that kind gives {tuple(exp)}",
                             }
                         )
                 elif kind == "YIELD":
@@ -692,7 +790,7 @@ def execute(run: Dict[str, Any], golden: Dict[str, Any]) -> Dict[str, Any]:
             if id(c) in seen_ids:
                 continue
             seen_ids.add(id(c))
-            md = mode.get(id(c), "plain")
+            md = kind_of(c)
             for k in ks:
                 out = do_use(c, k)
                 exp = gold(c)["use"][k]
@@ -702,7 +800,7 @@ def execute(run: Dict[str, Any], golden: Dict[str, Any]) -> Dict[str, Any]:
                     viol.append(
                         {
                             "sig": f"sweep-differs:{exp[0]}->{out[0]}",
-                            "msg": f"after the run, a {md} converter gives {out} for {nm}; a lone fresh converter gives {tuple(exp)}",
+                            "msg": f"after the run, a [{md}] converter gives {out} for {nm}; a lone converter of that kind gives {tuple(exp)}",
                         }
                     )
     return {
@@ -786,18 +884,12 @@ def _fork_call(fn: Any, args: Tuple, timeout: float) -> Any:
     return res["ok"]
 
 
-def golden_cached() -> Dict[str, Any]:
-    if Z.get("golden") is None:
-        Z["golden"] = _fork_call(compute_golden, (), 120.0)
-    return Z["golden"]
-
-
 def worker_run(task: Dict[str, Any]) -> Dict[str, Any]:
     """Pool task: one simulated run (fork of the zygote)."""
     try:
-        golden = golden_cached()
+        golden = golden_for(needed_keys(task))
         res = _fork_call(execute, (task, golden), task.get("wall_timeout", 90.0) + 30)
-        res["golden_digest"] = core.digest(golden)
+        res["golden_digest"] = core.digest(sorted(golden))
         res["pid"] = os.getpid()
         return res
     except core.HarnessError as e:
@@ -810,7 +902,7 @@ def worker_run(task: Dict[str, Any]) -> Dict[str, Any]:
 
 TIERS = {
     # runs, determinism re-run sample, wall budget (s) for the main sweep
-    "quick": {"runs": 1000, "det": 64, "budget": 120.0, "extras": 60, "sweep": 160},
+    "quick": {"runs": 1000, "det": 64, "budget": 120.0, "extras": 200, "sweep": 160},
     "thorough": {"runs": 40000, "det": 600, "budget": 2400.0, "extras": 400, "sweep": 10**9},
 }
 
@@ -830,7 +922,7 @@ def sweep_tasks(seed: int, points: int) -> Tuple[List[Dict[str, Any]], Dict[str,
     base = {"shape": "sweep1", "n": 2, "threads": [[["GET", 0, "fresh", None], ["USE", 0, ka]], [["GET", 0, "fresh", None], ["USE", 0, kb]]],
             "shared_dv": [], "shared_custom": [], "start_after": [0, 0], "buggify": [], "sched_seed": 1}
     cal = dict(base, run_seed=core.derive(seed, PROP, "sweep-cal"), policy={"kind": "trace", "trace": [[0, 10**9], [1, 10**9]]})
-    res = worker_run(cal)
+    ((_, res),) = core.run_pool(worker_run, [cal], workers=1, per_task_timeout=300.0)
     if res.get("harness") or not res.get("decisions"):
         raise core.HarnessError(f"sweep calibration failed: {res.get('harness')}")
     t0_steps = res["decisions"][0][1]
@@ -1027,8 +1119,33 @@ def main(argv: List[str]) -> int:
     install_extras(extras)
     rep.log(f"battery: {N_BASE_STRUCT} fixed structure inputs + {len(extras)} vectors from the tree's testdata plugin"
             + (f" ({extras_note})" if extras_note else "") + f", {len(battery.BUILD)} constructor recipes")
-    run_seeds = [core.derive(seed, PROP, i) for i in range(cfg["runs"])]
+    # ---- phase 0: reference outcomes of lone converters, one forked child per kind, in parallel -------
     t_start = time.monotonic()
+    config_viol: List[Dict[str, str]] = []
+    try:
+        keys = all_golden_keys()
+        outs = [r for _, r in core.run_pool(golden_task, keys + keys[:1], per_task_timeout=400.0)]
+        gold_all = dict(outs[: len(keys)])
+        Z["golden"] = gold_all  # inherited by the workers of the pools forked below
+        again = outs[-1][1]
+        if core.digest(again) != core.digest(gold_all[keys[0]]):
+            rep.harness_error("golden outcomes are not reproducible (two lone fresh converters disagree with each other)")
+        # detailed validation on/off must not change verdicts or values (exception types may differ)
+        strip = lambda o: tuple(o[:1]) if o[0] == "err" else tuple(o)  # noqa: E731
+        for k1 in keys:
+            if "|dv=1|" not in k1:
+                continue
+            k0 = k1.replace("|dv=1|", "|dv=0|")
+            for part, names in (("use", [b[0] for b in battery.STRUCT]), ("build", [b[0] for b in battery.BUILD])):
+                for i, (a_, b_) in enumerate(zip(gold_all[k1][part], gold_all[k0][part])):
+                    if strip(a_) != strip(b_):
+                        config_viol.append({"sig": f"config-differs:detailed_validation:{a_[0]}->{b_[0]}",
+                                            "msg": f"a lone [{k1}] converter gives {tuple(a_)} for {names[i]}, a lone [{k0}] converter gives {tuple(b_)}"})
+                        break
+        rep.log(f"phase 0: {len(keys)} kinds of lone reference converters in {time.monotonic() - t_start:.1f}s")
+    except core.HarnessError as e:
+        rep.harness_error(f"golden phase: {e}")
+    run_seeds = [core.derive(seed, PROP, i) for i in range(cfg["runs"])]
     sweep: List[Dict[str, Any]] = []
     sweep_info: Dict[str, Any] = {}
     try:
@@ -1076,10 +1193,8 @@ def main(argv: List[str]) -> int:
         rep.harness_error(str(e))
 
     ok_results = [r for r in results if not r.get("harness")]
-    # golden must be the same in every worker (it is itself a determinism probe)
-    gds = {r.get("golden_digest") for r in ok_results}
-    if len(gds) > 1:
-        rep.harness_error(f"golden outcomes differ between workers: {sorted(map(str, gds))}")
+    for v in config_viol[:3]:
+        rep.add_violation(v["sig"], v["msg"], {"run_seed": 0, "run": None, "note": "observed on lone converters in phase 0; re-run the check to reproduce"})
 
     # ---- determinism self-test ---------------------------------------------------------------
     det_checked = det_mismatch = 0
